@@ -11,18 +11,15 @@ Proof.
   apply go_make_np_nonneg. lia.
 Qed.
 
-(* the length the unsigned arithmetic gives: the intended count when min <= max, a wrapped one otherwise *)
-Lemma make_supported_versions_len mn mx l : mn < 65536 -> mx < 65536 ->
-  make_supported_versions mn mx = Ok l ->
-  N.of_nat (length l) = if mn <=? mx then mx - mn + 1 else 65536 - (mn - mx) + 1.
+(* for an ordered range the list is max, max-1, ..., min *)
+Lemma make_supported_versions_len mn mx l : 769 <= mn <= 772 -> 769 <= mx <= 772 -> mn <= mx ->
+  make_supported_versions mn mx = Ok l -> N.of_nat (length l) = mx - mn + 1.
 Proof.
-  intros Hn Hx. unfold make_supported_versions, go_make.
+  intros Hn Hx Hle. unfold make_supported_versions, go_make.
   destruct (Z.ltb_spec (Z.of_N ((mx + 65536 - mn + 1) mod 65536)) 0); [lia|]. cbn [bind]. intros Hok. inversion Hok; subst.
   rewrite map_length, seq_length.
-  destruct (N.leb_spec mn mx).
-  - replace (mx + 65536 - mn + 1) with ((mx - mn + 1) + 1 * 65536) by lia. rewrite N.mod_add by lia.
-    rewrite N.mod_small by lia. lia.
-  - rewrite N.mod_small by lia. lia.
+  replace (mx + 65536 - mn + 1) with ((mx - mn + 1) + 1 * 65536) by lia. rewrite N.mod_add by lia.
+  rewrite N.mod_small by lia. lia.
 Qed.
 
 Lemma scan_sv_np es : forall c mm, np (scan_sv es c mm).
